@@ -28,6 +28,8 @@ macro_rules! properties {
 }
 
 properties! {
+    "C01" => c01,
+    "C06" => c06,
     "C10" => c10,
     "C14" => c14,
     "C18" => c18,
